@@ -52,6 +52,7 @@ F4 = "C16-F4-duplicate-column-instance"
 F5 = "C16-F5-group-partition-in-relational-argument"
 F6 = "C16-F6-relation-parameter-used-twice"
 F7 = "C16-F7-excluded-column-of-sub-pipeline"
+F8 = "C16-F8-let-value-used-twice"
 
 MISSING_ID_PANIC = re.compile(r"no entry found for key|cannot find cid|called `Option::unwrap\(\)` on a `None` value")
 ID_LOOKUP_FILES = ("sql/pq/context.rs", "sql/pq/anchor.rs", "sql/pq/positional_mapping.rs", "semantic/lowering.rs")
@@ -93,6 +94,18 @@ def rel_param_twice(src):
             continue
         last = ps[-1]
         if len(re.findall(r"\b%s\b" % re.escape(last), body)) >= 2 and re.search(r"\b%s\b" % re.escape(name), src[m.end():]):
+            return True
+    return False
+
+
+def let_value_twice(src):
+    """the program declares a top-level scalar value (`let NAME = expr`: no `->`, not a relation) and mentions it at least twice:
+    every mention is inlined with the declaration's one PL node id"""
+    for m in re.finditer(r"(?m)^let\s+(\w+)\s*=\s*(.*)$", src):
+        name, body = m.group(1), m.group(2).strip()
+        if "->" in body or re.match(r"\(?\s*(from|from_text|read_csv|read_parquet|read_json)\b", body) or body.startswith(("[", "(\n", 's"', "s'")) or body == "(":
+            continue
+        if len(re.findall(r"\b%s\b" % re.escape(name), src[m.end():])) >= 2:
             return True
     return False
 
@@ -172,13 +185,15 @@ def excluded_from_columns(q, w):
 
 
 def classify_diags(q, diags, src=""):
-    """id of the OPEN finding that explains ALL diagnostics of this RQ, or None (= VIOLATION).  Only F1, F6 and F7 can be
+    """id of the OPEN finding that explains ALL diagnostics of this RQ, or None (= VIOLATION).  Only F1, F6, F7 and F8 can be
     returned: the classes of the repaired findings (F2, F4, F5, the plain-aggregate half of F1) are not tolerated and
     are named by regression_of() in the violation text."""
     if not diags:
         return None
     if all(d[0] in ("DForeign", "DNotVisible") for d in diags) and rel_param_twice(src):
         return F6
+    if all(d[0] in ("DForeign", "DNotVisible") for d in diags) and let_value_twice(src):
+        return F8
     f1 = [d for d in diags if c16_wf.lax_diag(d)]
     rest = [d for d in diags if d not in f1]
     for d in f1:
